@@ -659,7 +659,8 @@ func ruleBTRec(c *Ctx) {
 		}
 	}
 	tphi, _ := typeArg.(*ssa.Phi)
-	// the literal: stores of codec and offset into a recordCodecField
+	// the literal: stores of codec and offset into a record field entry
+	rfT, rfOff, rfCodec := recordFieldRoles(P)
 	var offVal, codecVal ssa.Value
 	for _, b := range fn.Blocks {
 		for _, in := range b.Instrs {
@@ -668,11 +669,11 @@ func ruleBTRec(c *Ctx) {
 				continue
 			}
 			if fa, ok := st.Addr.(*ssa.FieldAddr); ok {
-				if n, isN := types.Unalias(fa.X.Type().Underlying().(*types.Pointer).Elem()).(*types.Named); isN && n.Obj().Name() == "recordCodecField" {
+				if n, isN := types.Unalias(fa.X.Type().Underlying().(*types.Pointer).Elem()).(*types.Named); isN && rfT != nil && n.Obj() == rfT.Obj() {
 					switch fieldName(fa.X.Type(), fa.Field) {
-					case "offset":
+					case rfOff:
 						offVal = st.Val
-					case "codec":
+					case rfCodec:
 						codecVal = st.Val
 					}
 				}
